@@ -145,6 +145,8 @@ theorem step_coherent (O : Ops Î¼ Ï) (K : Nat) (st : State Î¼ Ï) (op : Op Î¼ Ï
   | setPrecoders f fullF p => exact setPrecoders_coherent O K st f fullF p h
   | setFilters wH w => exact setFilters_coherent O K st wH w h
   | setInit a => exact h
+  | query => exact h
+  | fork => exact h
   | solve cf ns p sol => exact solve_coherent O K st cf ns p sol h
   | clear => exact clear_coherent O K st
   | readF => exact h
